@@ -407,8 +407,18 @@ def source_facts(prog):
     return lits, [None if it is None else it[1] for it in data]
 
 
+CP437_HIGH = bytes(range(0x80, 0x100)).decode('cp437')
+CP437_LOW = ''.join(chr(c) for c in range(0x20, 0x7f) if chr(c) != '"')
+
+
 def boundary_programs(tier):
     out = []
+    # every printable cp437 character in literals and in DATA items
+    chunks = [CP437_LOW[k:k + 24] for k in range(0, len(CP437_LOW), 24)] + \
+        [CP437_HIGH[k:k + 16] for k in range(0, 128, 16)]
+    out.append(('cp437_all_chars', ''.join(
+        'PRINT "%s"\n' % c for c in chunks) + 'READ a$, b$\nPRINT a$; b$\n' +
+        ''.join('DATA "%s", "%s"\n' % (c, c[::-1]) for c in chunks)))
     for n in (255, 256, 300):
         out.append(('locals_%d' % n, ''.join(
             'v%d%% = %d\n' % (k, k % 100) for k in range(n)) +
@@ -458,10 +468,10 @@ def items(cfg):
     return boundary_programs(cfg['tier'])
 
 
-def judge_text(text, prog=None):
+def judge_text(text, prog=None, facts=None):
     failures = []
     info = {'accepted': False, 'routines': 0, 'labels': 0}
-    lits = data = None
+    lits, data = facts or (None, None)
     if prog is not None:
         try:
             lits, data = source_facts(prog)
@@ -519,7 +529,12 @@ def check(case, cfg):
 
 def check_item(item, cfg):
     name, text = item
-    failures, info = judge_text(text)
+    prog_lits = data_items = None
+    if name == 'cp437_all_chars':
+        prog_lits = re.findall(r'PRINT "([^"]*)"', text)
+        data_items = [x for pair in re.findall(
+            r'DATA "([^"]*)", "([^"]*)"', text) for x in pair]
+    failures, info = judge_text(text, facts=(prog_lits, data_items))
     if name.startswith('REJECT:'):
         if info['accepted']:
             failures.append(('boundary_program_accepted', {'name': name}))
